@@ -15,8 +15,8 @@ from mc import clidrv, core
 from props import c16
 
 PROP = "C19"
-SYMS = ['"', "'", "\\", "\n", "é", "a", " ", "#", '"""', "'''", "U", "x", "\u2028", "\x0c"]
-NAMES = {'"': "dq", "'": "sq", "\\": "bs", "\n": "nl", "é": "eacute", "a": "a", " ": "sp", "#": "hash", '"""': "dq3", "'''": "sq3", "U": "U", "x": "x", "\u2028": "ls", "\x0c": "ff"}
+SYMS = ['"', "'", "\\", "\n", "é", "a", " ", "#", '"""', "'''", "U", "x", "\u2028", "\x0c", "e\u0301", "\u212b"]     # the last two are not NFC-normal
+NAMES = {'"': "dq", "'": "sq", "\\": "bs", "\n": "nl", "é": "eacute", "a": "a", " ": "sp", "#": "hash", '"""': "dq3", "'''": "sq3", "U": "U", "x": "x", "\u2028": "ls", "\x0c": "ff", "e\u0301": "e_combining_acute", "\u212b": "angstrom_sign"}
 FWS = ["base", "pydantic", "sqlmodel", "attrs", "dataclasses"]
 BLANKS = ["", " ", "\n\n", "\t", " \n \t "]
 SAMPLES = [{"id": 1, "name": "x", "tags": ["a"], "owner": {"n": 1, "site": {"u": "v"}}}, {"id": 2, "name": "y", "tags": [], "owner": {"n": 2, "site": {"u": "w"}}}]
